@@ -1004,6 +1004,32 @@ func (c *Ctx) lateShapeRules(rule, which string) {
 		if detector == nil {
 			return
 		}
+		// the scan ends with `false` only when the list is exhausted: a return inside the loop over the list answers true
+		// (`return hasSliceLoop(contents)` for a nested struct would stop at the first nested struct and never see a loop behind it)
+		{
+			// (a returning block is not part of the natural loop, so "inside the loop" is judged by the reaching condition: a
+			// return that can answer false must lie behind the exhaustion of the range over the parameter)
+			exhausted := c.M(false, func(x *core.Term) bool {
+				return x.Kind == "binop" && x.Name == "<" && x.Args[1].IsCallTo("builtin:len") && x.Args[1].Args[0].Kind == "param"
+			})
+			okScan, whyScan := true, ""
+			for _, ret := range core.Returns(detector) {
+				if len(ret.Results) != 1 {
+					continue
+				}
+				t := c.O.Of(ret.Results[0])
+				if t.Is("const", "true") {
+					continue
+				}
+				d := c.ReachOf(ret)
+				isV := c.M(true, func(x *core.Term) bool { return x.String() == t.String() })
+				if !d.Implies(exhausted, isV) {
+					okScan = false
+					whyScan = "return at " + c.InstrPos(ret) + " answers " + t.String() + " under " + c.failing(d, exhausted, isV)
+				}
+			}
+			r.Check(rule, FnKey(detector)+":false-only-when-exhausted", c.Pos(detector.Pos()), okScan, "the loop detector can answer false before it has seen every assignment of the list: a slice loop behind the element at which it stops is not noticed and the names i and e are not protected; "+whyScan)
+		}
 		noLoop := c.M(false, func(t *core.Term) bool { return t.Kind == "call" && (t.Name == detector.String() || t.Name == core.FuncName(detector)) })
 		nameFree := func(name string) core.LitMatcher {
 			return c.M(false, func(t *core.Term) bool {
@@ -1048,6 +1074,50 @@ func (c *Ctx) docStopsAtFieldRule(rule string) {
 	n := 0
 	ok := true
 	why := ""
+	// `docField(node) == nil` where a same-package helper answers the address of the node's Doc member, and nil only for nodes
+	// that are no *ast.Field (every way it returns nil has failed the assertion to *ast.Field on its parameter)
+	helperSaysNoField := func(l core.Lit) bool {
+		t, pos := c.Canon(l)
+		if !pos || t.Kind != "binop" || t.Name != "==" {
+			return false
+		}
+		for i := 0; i < 2; i++ {
+			call, k := t.Args[i], t.Args[1-i]
+			if !k.Is("const", "nil") || call.Kind != "call" || len(call.Args) != 1 {
+				continue
+			}
+			for _, h := range c.P.Funcs() {
+				if (h.String() != call.Name && core.FuncName(h) != call.Name) || pkgOf(h) != pkgOf(fn) || len(h.Params) != 1 {
+					continue
+				}
+				hr := c.Reach(h)
+				paramNotField := c.M(false, func(x *core.Term) bool {
+					return assertOK("*ast.Field")(x) && len(x.Args[0].Args) == 1 && x.Args[0].Args[0].Kind == "param"
+				})
+				nNil, all := 0, true
+				for _, ret := range core.Returns(h) {
+					if len(ret.Results) != 1 {
+						return false
+					}
+					for _, cs := range hr.Cases(ret.Results[0]) {
+						if !c.O.Of(cs.V).Is("const", "nil") {
+							continue
+						}
+						nNil++
+						cond := c.ReachOf(ret)
+						if cs.Cond != nil {
+							cond = core.And(cs.Cond, cond)
+						}
+						if !cond.Implies(paramNotField) {
+							all = false
+						}
+					}
+				}
+				return nNil > 0 && all
+			}
+		}
+		return false
+	}
 	for head, body := range allLoops(fn) {
 		for _, p := range head.Preds {
 			if !body[p] {
@@ -1059,9 +1129,9 @@ func (c *Ctx) docStopsAtFieldRule(rule string) {
 			other := c.M(true, func(t *core.Term) bool {
 				return t.Kind == "extract" && t.Name == "1" && t.Args[0].Kind == "typeassert,ok" && strings.HasPrefix(t.Args[0].Name, "*ast.") && t.Args[0].Name != "*ast.Field"
 			})
-			if !be.Implies(notField, other) {
+			if !be.Implies(notField, other, helperSaysNoField) {
 				ok = false
-				why = c.failing(be, notField, other)
+				why = c.failing(be, notField, other, helperSaysNoField)
 			}
 		}
 	}
